@@ -1,4 +1,117 @@
-(* Props/C19.v — placeholder while the proofs are being written *)
-From BSV Require Import Base.Hex Model.Template.
-Example C19_placeholder : template_from_asm "OP_DATA>=5" = Ok [MData 5 CGreaterThanOrEquals].
+(* Props/C19.v — pinned statements of property C19 (script templates match what they describe; criteria
+   select the right indices).  Statements only; proofs are in Proofs/TemplateProofs.v.
+
+   Model:  Model/Template.v (map_match_token, template_from_asm / template_from_script, match_impl),
+           Model/Criteria.v (is_matching_output/input, match_output(s) / match_input(s)).
+   Spec:   Spec/TemplateSpec.v (satisfies, template_matches, extraction, value_in_bounds, selects,
+           self_match_class, the documented grammar spec_template).
+
+   Every statement holds for all `is_sig`, `is_pubkey` (what decodes as a signature / public key is the
+   subject of C06 / C07; Run/Exec_C19.v instantiates them with Prim/Der.v and Prim/Secp256k1.v).
+
+   Known findings (KNOWN_FINDINGS.txt): a minimally-pushed script without conditionals does NOT match the
+   template derived from itself when (i) it has a one-byte push 0x00..0x09 / 0x10..0x16 (class
+   short-numeric-token), (ii) it contains an opcode 0xfb..0xfe (pseudo-opcode-wildcard), (iii) it is empty
+   (empty-script-template).  `self_match_class` is the union; the full-strength statement (C19_self_match
+   without that hypothesis) is false: C19_self_match_refuted.  The same tokenizer rule makes the tokens
+   "00".."09" denote OP_0..OP_9 instead of one-byte data (hypothesis of C19_template_grammar). *)
+From BSV Require Import Base.Hex Model.Opcodes Model.Script Model.Asm Model.Template Model.Criteria
+  Spec.ScriptTok Spec.AsmSpec Spec.TemplateSpec Proofs.TemplateProofs.
+Open Scope list_scope.
+
+(* 1. A script matches a template exactly when both have the same number of elements and every element
+      satisfies its token. *)
+Theorem C19_match_iff :
+  forall is_sig is_pubkey s ts,
+    (exists ms, match_impl is_sig is_pubkey s ts = Ok ms) <-> template_matches is_sig is_pubkey ts s.
+Proof. exact match_iff. Qed.
+Print Assumptions C19_match_iff.
+
+Theorem C19_is_match_iff :
+  forall is_sig is_pubkey s ts, is_match is_sig is_pubkey s ts = true <-> template_matches is_sig is_pubkey ts s.
+Proof. exact is_match_iff. Qed.
+Print Assumptions C19_is_match_iff.
+
+Theorem C19_match_total : forall is_sig is_pubkey s ts, match_impl is_sig is_pubkey s ts <> Panic.
+Proof. exact match_no_panic. Qed.
+Print Assumptions C19_match_total.
+
+(* 2. The extracted values are the pushes under the non-exact tokens, in script order, with their kinds. *)
+Theorem C19_extraction_spec :
+  forall is_sig is_pubkey s ts ms, match_impl is_sig is_pubkey s ts = Ok ms -> ms = extraction ts s.
+Proof. exact extraction_spec. Qed.
+Print Assumptions C19_extraction_spec.
+
+(* 3. Every minimally-pushed script without conditionals matches the template derived from itself
+      (and nothing is extracted), outside the known-finding classes. *)
+Theorem C19_self_match :
+  forall is_sig is_pubkey s,
+    no_conditionals s = true -> wf_bits s = true -> no_coinbase s = true -> minimal_pushes s = true ->
+    self_match_class s = false ->
+    exists ts, template_from_script s = Ok ts /\ match_impl is_sig is_pubkey s ts = Ok [].
+Proof. exact self_match. Qed.
+Print Assumptions C19_self_match.
+
+(* 5. Each class is a genuine failure. *)
+Theorem C19_self_match_refuted :
+  forall is_sig is_pubkey,
+  (from_bytes [x01; x05] = Ok [BPush [x05]] /\ template_from_script [BPush [x05]] = Ok [MOp 85] /\
+   match_impl is_sig is_pubkey [BPush [x05]] [MOp 85] = Err) /\
+  (from_bytes [xfd] = Ok [BOp 253] /\ template_from_script [BOp 253] = Ok [MPublicKeyHash] /\
+   match_impl is_sig is_pubkey [BOp 253] [MPublicKeyHash] = Err) /\
+  (from_bytes [] = Ok [] /\ template_from_script [] = Ok [MPush []] /\ match_impl is_sig is_pubkey [] [MPush []] = Err).
+Proof. exact self_match_refuted. Qed.
+Print Assumptions C19_self_match_refuted.
+
+(* The documented template grammar (aliases, names, the four wildcards, OP_DATA with >= <= = > < and a
+   decimal length, even-length hex) is read as documented, except for the tokens "00".."09". *)
+Theorem C19_template_grammar :
+  forall text ts, spec_template text = Some ts -> existsb short_numeric_token (split_space text) = false ->
+                  template_from_asm text = Ok ts.
+Proof. exact template_grammar. Qed.
+Print Assumptions C19_template_grammar.
+
+(* 4. Selection by criteria: exactly the indices (ascending) whose script matches the template and whose
+      value satisfies the exact / minimum / maximum bounds; the single-result form is the first of them. *)
+Theorem C19_match_outputs_spec :
+  forall is_sig is_pubkey outs c,
+    selects (output_selected is_sig is_pubkey c) outs (match_outputs is_sig is_pubkey outs c) /\
+    match_output is_sig is_pubkey outs c = hd_error (match_outputs is_sig is_pubkey outs c).
+Proof. exact match_outputs_spec. Qed.
+Print Assumptions C19_match_outputs_spec.
+
+Theorem C19_match_inputs_spec :
+  forall is_sig is_pubkey ins c,
+    selects (input_selected is_sig is_pubkey c) ins (match_inputs is_sig is_pubkey ins c) /\
+    match_input is_sig is_pubkey ins c = hd_error (match_inputs is_sig is_pubkey ins c).
+Proof. exact match_inputs_spec. Qed.
+Print Assumptions C19_match_inputs_spec.
+
+(* the decidable relation evaluated by the executable check is the specification relation *)
+Theorem C19_template_matches_decidable :
+  forall is_sig is_pubkey ts s, template_matches_b is_sig is_pubkey ts s = true <-> template_matches is_sig is_pubkey ts s.
+Proof. exact template_matches_b_iff. Qed.
+Print Assumptions C19_template_matches_decidable.
+
+(* non-vacuity *)
+Example C19_nonvacuous_self_match :
+  exists s, from_bytes [x76; xa9; x02; x12; x34; x88; xac; x00; x60] = Ok s /\
+            no_conditionals s = true /\ wf_bits s = true /\ no_coinbase s = true /\ minimal_pushes s = true /\
+            self_match_class s = false.
+Proof. eexists. repeat split; vm_compute; reflexivity. Qed.
+
+Example C19_nonvacuous_match :
+  forall is_sig is_pubkey,
+    (forall d, is_sig d = Nat.eqb (length d) 2) ->
+    template_from_asm "OP_DUP OP_DATA>=2 OP_SIG OP_PUBKEYHASH OP_DATA" = Ok [MOp 118; MData 2 CGreaterThanOrEquals; MSignature; MPublicKeyHash; MAnyData] /\
+    match_impl is_sig is_pubkey [BOp 118; BPush [x01; x02]; BPush [x03; x04]; BPush (repeat x07 20); BPushData 76 [x09]]
+      [MOp 118; MData 2 CGreaterThanOrEquals; MSignature; MPublicKeyHash; MAnyData]
+    = Ok [(KData, [x01; x02]); (KSignature, [x03; x04]); (KPublicKeyHash, repeat x07 20); (KData, [x09])].
+Proof. intros is_sig is_pubkey H. split; [vm_compute; reflexivity|]. cbn. rewrite H. reflexivity. Qed.
+
+Example C19_nonvacuous_criteria :
+  match_outputs (fun _ => false) (fun _ => false)
+    [{| o_value := 4; o_script := [BOp 81] |}; {| o_value := 5; o_script := [BOp 81] |}; {| o_value := 6; o_script := [BOp 82] |};
+     {| o_value := 7; o_script := [BOp 81] |}; {| o_value := 8; o_script := [BOp 81] |}]
+    {| c_template := Some [MOp 81]; c_exact := None; c_min := Some 5%N; c_max := Some 7%N |} = [1; 3].
 Proof. vm_compute. reflexivity. Qed.
